@@ -27,6 +27,7 @@ func c20Drain(c chan gdbi.ElementLookup) {
 
 // c20PsqlCall runs one entry point of the PostgreSQL driver with the client string s.
 func c20PsqlCall(entry int, s string) []string {
+	c20ExecCount = 0
 	c20Log = nil
 	ts := timestamp.NewTimestamp()
 	g := &Graph{db: c20DB(), ts: &ts, v: "g_vertices", e: "g_edges", graph: "g"}
@@ -87,6 +88,8 @@ func VerifH_C20_psql() {
 	entry := vChoice("entry", len(c20PsqlEntries))
 	s := vNondetString("s", L)
 	vAssume(len(s) > 0)
+	// the database refuses the first or the second row of a prepared insert, or none
+	c20ExecFailAt = vChoice("stmt-exec-fails-at", 3)
 	got := c20PsqlCall(entry, s)
 	ref := c20PsqlCall(entry, c20Benign(len(s)))
 	vKnownFor("C20/psql-interpolates-client-strings", entry != 12 && entry < 15, "C20.psql.same-structure")
